@@ -160,7 +160,7 @@ gproof! { fn c10_thin_fat_thin_roundtrip() {
     core::mem::forget(t2);
 } }
 
-// @h props=C10,C07 kind=panic site="Length needs to be correct" fuc=Arc::into_thin note="recorded length (symbolic) != true length"
+// @h props=C10,C07 kind=panic site="Length needs to be correct| in .*into_thin" fuc=Arc::into_thin note="recorded length (symbolic) != true length"
 gpanic! { fn c10_into_thin_mismatch_refused() {
     let buf: [u32; TL] = kani::any();
     let len: usize = kani::any();
